@@ -470,7 +470,8 @@ def check_L15(ctx, rep):
                 emp = place(c['r']) if c.get('k') == 'mcall' and c['m'] == 'is_empty' else None
                 st_t, st_f = st, st
                 if emp is not None:
-                    st_e = dict(st); st_e[emp] = frozenset()
+                    # on that branch the symbols the place holds denote the empty relation
+                    st_e = dict(st); st_e['__empty__'] = st.get('__empty__', frozenset()) | st[emp]; st_e[emp] = frozenset()
                     st_t, st_f = (st, st_e) if neg else (st_e, st)
                 out = run_block(e['th'], [st_t])
                 out += run_block(e['el'], [st_f]) if e.get('el') is not None else [st_f]
@@ -512,9 +513,10 @@ def check_L15(ctx, rep):
         want = {'total.combined': frozenset('D'), 'delta.old': frozenset('D'), 'delta.combined': frozenset('DN'), 'new': frozenset()}
         bad = None
         for state in finals:
-            res = {'total.combined': state[('total', 'combined')], 'delta.old': state[('delta', 'old')],
-                   'delta.combined': state[('delta', 'combined')], 'new': state[('new', 'combined')]}
-            if res != want and bad is None:
+            emp = state.get('__empty__', frozenset())
+            res = {'total.combined': state[('total', 'combined')] - emp, 'delta.old': state[('delta', 'old')] - emp,
+                   'delta.combined': state[('delta', 'combined')] - emp, 'new': state[('new', 'combined')] - emp}
+            if res != {k: v - emp for k, v in want.items()} and bad is None:
                 bad = res
         res = bad or want
         results[tyname] = res
